@@ -229,7 +229,7 @@ theorem addPcmh_count (sdata seqLen : Nat) (pcmd data : Bytes) (a a' : Acc)
 theorem addPcmh_step (sdata seqLen : Nat) (pcmd data : Bytes) (a a' : Acc) (rs : List Win)
     (inv : Wave.Inv a.wave rs) (hnd : a.bank.Nodup)
     (hD11 : ∀ hdr, Wave.Sample.fromBytes (data.drop 4) = some hdr → hdr.start = 0)
-    (h : addPcmh sdata seqLen pcmd data a = .ok a') (hcount : a'.wave.samples.length ≤ 65536) :
+    (h : addPcmh sdata seqLen pcmd data a = .ok a') :
     ∃ id hdr q rs', rdLe32 data 0 = some id ∧ Wave.Sample.fromBytes (data.drop 4) = some hdr ∧
       a'.patch = a.patch ++ [q] ∧ Wave.Inv a'.wave rs' ∧ a'.bank.Nodup ∧
       Ext a.bank a.wave rs a'.bank a'.wave rs' ∧
@@ -256,7 +256,6 @@ theorem addPcmh_step (sdata seqLen : Nat) (pcmd data : Bytes) (a a' : Acc) (rs :
             · rename_i h2 hget
               simp only [Except.ok.injEq] at h
               subst h
-              simp only at hcount
               have hlen : ((pcmd.drop header.position).take header.size).length = header.size := by
                 simp only [List.length_take, List.length_drop]; omega
               have hsmall := addSample_small a.wave rs _ _ w sidx inv (by simp only [hlen]) hadd
@@ -265,8 +264,6 @@ theorem addPcmh_step (sdata seqLen : Nat) (pcmd data : Bytes) (a a' : Acc) (rs :
               have so := Wave.addSample_step a.wave rs _ _ w sidx inv adm hadd
               obtain ⟨s0, hs0, hread, hst, hsz, hrt⟩ := so.entry
               have hcnt := addSample_count _ _ _ _ _ hadd
-              have hsame : sidx % 65536 = sidx := Nat.mod_eq_of_lt (by omega)
-              rw [hsame] at hget
               have es : s0 = h2 := by rw [hs0] at hget; exact Option.some.inj hget
               subst es
               obtain ⟨u1, u2, u3⟩ := addUnique_spec a.bank (pcmHeader s0) hnd
@@ -294,7 +291,7 @@ theorem addPcmh_step (sdata seqLen : Nat) (pcmd data : Bytes) (a a' : Acc) (rs :
 theorem stepDblk_step (sdata seqLen : Nat) (pcmd : Bytes) (c : Riff.Riff) (a a' : Acc) (rs : List Win)
     (inv : Wave.Inv a.wave rs) (hnd : a.bank.Nodup)
     (hD11 : ∀ cr, carriedOf sdata pcmd c = some cr → cr.start0)
-    (h : stepDblk sdata seqLen pcmd c a = .ok a') (hcount : a'.wave.samples.length ≤ 65536) :
+    (h : stepDblk sdata seqLen pcmd c a = .ok a') :
     ∃ rs', Wave.Inv a'.wave rs' ∧ a'.bank.Nodup ∧ Ext a.bank a.wave rs a'.bank a'.wave rs' ∧
       ((carriedOf sdata pcmd c = none ∧ a'.patch = a.patch) ∨
        ∃ q cr, carriedOf sdata pcmd c = some cr ∧ a'.patch = a.patch ++ [q] ∧ Resolves a'.bank a'.wave q cr) := by
@@ -316,7 +313,7 @@ theorem stepDblk_step (sdata seqLen : Nat) (pcmd : Bytes) (c : Riff.Riff) (a a' 
           have := hD11 (.pcm (slotAddr sdata id) hdr (LinkSpec.readAt pcmd hdr.position hdr.size))
             (by simp only [carriedOf, hty, show Tables.link_cc_pcmh ≠ Tables.link_cc_glob by decide, if_true, if_false, hid, hh])
           exact this
-      obtain ⟨id, hdr, q, rs', h1, h2, h3, h4, h5, h6, h7⟩ := addPcmh_step sdata seqLen pcmd c.data a a' rs inv hnd hd h hcount
+      obtain ⟨id, hdr, q, rs', h1, h2, h3, h4, h5, h6, h7⟩ := addPcmh_step sdata seqLen pcmd c.data a a' rs inv hnd hd h
       refine ⟨rs', h4, h5, h6, Or.inr ⟨q, _, ?_, h3, h7⟩⟩
       simp only [carriedOf, hty, show Tables.link_cc_pcmh ≠ Tables.link_cc_glob by decide, if_true, if_false, h1, h2]
     · rename_i hty1 hty2
@@ -360,7 +357,7 @@ resolving in the final banks -/
 theorem foldDblk_step (sdata seqLen : Nat) (pcmd : Bytes) (cs : List Riff.Riff) (a a' : Acc) (rs : List Win)
     (inv : Wave.Inv a.wave rs) (hnd : a.bank.Nodup)
     (hD11 : ∀ cr ∈ cs.filterMap (carriedOf sdata pcmd), cr.start0)
-    (h : foldDblk sdata seqLen pcmd cs none a = .ok a') (hcount : a'.wave.samples.length ≤ 65536) :
+    (h : foldDblk sdata seqLen pcmd cs none a = .ok a') :
     ∃ rs' qs, Wave.Inv a'.wave rs' ∧ a'.bank.Nodup ∧ Ext a.bank a.wave rs a'.bank a'.wave rs' ∧
       a'.patch = a.patch ++ qs ∧ All2 (Resolves a'.bank a'.wave) qs (cs.filterMap (carriedOf sdata pcmd)) := by
   induction cs generalizing a rs with
@@ -374,13 +371,12 @@ theorem foldDblk_step (sdata seqLen : Nat) (pcmd : Bytes) (cs : List Riff.Riff) 
     | ok a1 =>
       rw [hs] at h
       simp only at h
-      have hc1 : a1.wave.samples.length ≤ 65536 := Nat.le_trans (foldDblk_count _ _ _ _ _ _ h) hcount
       have hD1 : ∀ cr, carriedOf sdata pcmd c = some cr → cr.start0 := by
         intro cr hcr
         apply hD11
         simp only [List.filterMap_cons, hcr]
         exact List.mem_cons_self ..
-      obtain ⟨rs1, inv1, hnd1, x1, hcase⟩ := stepDblk_step sdata seqLen pcmd c a a1 rs inv hnd hD1 hs hc1
+      obtain ⟨rs1, inv1, hnd1, x1, hcase⟩ := stepDblk_step sdata seqLen pcmd c a a1 rs inv hnd hD1 hs
       have hD2 : ∀ cr ∈ cs.filterMap (carriedOf sdata pcmd), cr.start0 := by
         intro cr hcr
         apply hD11
@@ -465,14 +461,13 @@ theorem SongOk.mono {src src' : List (Bytes × Bytes)} {bank bank' : List Bytes}
 /-- one `add_song` -/
 theorem addSong_step (l l' : Linker) (rs : List Win) (src : List (Bytes × Bytes)) (name file : Bytes) (mds : Riff.Riff)
     (I : LInv l rs src) (ho : Riff.ofBytes file = .ok mds) (hD11 : FileStart0 file)
-    (h : addSong l mds name = .ok l') (hcount : l'.wave.samples.length ≤ 65536) :
+    (h : addSong l mds name = .ok l') :
     ∃ rs', LInv l' rs' (src ++ [(name, file)]) ∧ Ext l.dataBank l.wave rs l'.dataBank l'.wave rs' ∧
       ∃ sd, sd.filename = name ∧ ∀ x, x ∈ l'.songs ↔ x ∈ l.songs ∨ x = sd := by
   obtain ⟨rd, a, hrd, hfold, hl'⟩ := addSong_read l l' file mds name ho h
   subst hl'
-  simp only at hcount
   obtain ⟨rs', qs, inv', hnd', x, hp, hf⟩ := foldDblk_step rd.sdata rd.seq.length rd.pcmd rd.chunks _ a rs I.wave I.nodup
-    (hD11 rd hrd) hfold hcount
+    (hD11 rd hrd) hfold
   simp only [List.nil_append] at hp
   refine ⟨rs', ⟨inv', hnd', ?_⟩, x, { filename := name, data := rd.seq, patch := a.patch }, rfl, ?_⟩
   · intro sd hsd
@@ -514,7 +509,7 @@ theorem runOps_count (ops : List Op) (l l' : Linker) (h : runOps ops l = .ok l')
 /-- any list of operations -/
 theorem runOps_inv (ops : List Op) (l l' : Linker) (rs : List Win) (src : List (Bytes × Bytes))
     (I : LInv l rs src) (hD11 : ∀ name file, Op.add name file ∈ ops → FileStart0 file)
-    (h : runOps ops l = .ok l') (hcount : l'.wave.samples.length ≤ 65536) :
+    (h : runOps ops l = .ok l') :
     ∃ rs', LInv l' rs' (src ++ ops.flatMap Op.src) ∧ Ext l.dataBank l.wave rs l'.dataBank l'.wave rs' ∧
       (∀ x ∈ l.songs, x ∈ l'.songs) := by
   induction ops generalizing l rs src with
@@ -538,8 +533,7 @@ theorem runOps_inv (ops : List Op) (l l' : Linker) (rs : List Win) (src : List (
         | ok l1 =>
           rw [ha] at h
           simp only at h
-          have hc1 : l1.wave.samples.length ≤ 65536 := Nat.le_trans (runOps_count _ _ _ h) hcount
-          obtain ⟨rs1, I1, x1, sd, _, hmem⟩ := addSong_step l l1 rs src name file mds I ho (hD11 name file (List.mem_cons_self ..)) ha hc1
+          obtain ⟨rs1, I1, x1, sd, _, hmem⟩ := addSong_step l l1 rs src name file mds I ho (hD11 name file (List.mem_cons_self ..)) ha
           obtain ⟨rs', I', x2, hs⟩ := ih l1 rs1 _ I1 (fun n f hm => hD11 n f (List.mem_cons_of_mem _ hm)) h
           refine ⟨rs', ?_, x1.trans x2, fun y hy => hs y ((hmem y).mpr (Or.inl hy))⟩
           simpa [Op.src, List.append_assoc] using I'
